@@ -153,7 +153,10 @@ def _one_rule(ctx: Ctx, rule: r2.OpRule, f: FuncInfo, objs: list[ObjV], st: Stat
             out.append(viol("R4r", f.qualname, i2, it.strict_failures[0], f.loc))
             continue
         if not results:
-            out.append(ok("R4r", f.qualname, i2, "refuses these operands on every path", f.loc, nontrivial=False))
+            if it.strict_raises:
+                out.append(viol("R4r", f.qualname, i2, f"the layer / parameter node this rule builds is rejected by its own constructor for these operands ({it.strict_raises[-1]}): the sizes the rule hands over cannot satisfy the constructor's validation", f.loc))
+            else:
+                out.append(ok("R4r", f.qualname, i2, "refuses these operands on every path", f.loc, nontrivial=False))
             continue
         kos = [_units(s0, o) for o in objs]
         for rv, s2 in results:
